@@ -171,6 +171,7 @@ inductive Err
   | casStale | lockHeld | unlockFailed | keyMissing | keyExists
   | sessionCheckFailed | indexCheckFailed
   | nodeMissing | serviceMissing | checkMissing
+  | readOnly            -- a write reached memdb inside a read-only transaction (TxnRO)
 deriving DecidableEq, Repr
 
 def Err.name : Err → String
@@ -182,7 +183,7 @@ def Err.name : Err → String
   | .casStale => "cas-stale" | .lockHeld => "lock-held" | .unlockFailed => "unlock-failed"
   | .keyMissing => "key-missing" | .keyExists => "key-exists" | .sessionCheckFailed => "session-check-failed"
   | .indexCheckFailed => "index-check-failed" | .nodeMissing => "node-missing"
-  | .serviceMissing => "service-missing" | .checkMissing => "check-missing"
+  | .serviceMissing => "service-missing" | .checkMissing => "check-missing" | .readOnly => "read-only"
 
 /-! ### primary keys -/
 
